@@ -204,19 +204,9 @@ def ev(e, env):
             if r.numerator.bit_length() > 4000 or r.denominator.bit_length() > 4000:
                 raise Skip
             return r
-        try:
-            fa, fb = float(a), float(b)
-        except OverflowError:
-            raise Skip
-        if fa <= 0 or abs(fb) > 60:
-            raise Skip
-        try:
-            r = fa ** fb
-        except OverflowError:
-            raise Skip
-        if math.isinf(r) or r > 1e200 or (r != 0 and abs(r) < 1e-200):
-            raise Skip
-        return r
+        # a non-integer exponent would bring in floating point; everything else is exact rational
+        # arithmetic, so give no verdict under this valuation instead of comparing rounded numbers
+        raise Skip
     if isinstance(e, p.Comparison):
         a, b = ev(e.left, env), ev(e.right, env)
         import operator
@@ -263,19 +253,23 @@ def same_value(a, b):
     return a == b and isinstance(a, bool) == isinstance(b, bool) or (a == b)
 
 
-def valuations(names, nval=5):
+def valuations(names, nval=6):
+    """the value of a name depends on the valuation number and the name only (not on the other names),
+    so a subexpression evaluated on its own sees the values it had inside the larger expression"""
     names = sorted(names)
     out = []
     for s in range(nval):
-        rng = random.Random("c19-%d" % s)
         vals = {}
         for n in names:
+            rng = random.Random("c19-%d-%s" % (s, n))
             if s == 0:
                 vals[n] = Fraction(rng.choice([2, 3]))
             elif s == 1:
                 vals[n] = Fraction(rng.randint(1, 4))
             elif s == 2:
                 vals[n] = Fraction(rng.randint(-3, 3))
+            elif s == 3:
+                vals[n] = Fraction(rng.choice([-2, -1, 1, 2]))
             else:
                 vals[n] = Fraction(rng.randint(-5, 5), rng.randint(1, 3))
         out.append((s, vals))
@@ -287,10 +281,12 @@ def value_difference(e, q, names):
     for env in valuations(names):
         try:
             a = ev(e, env)
-        except Skip:
+        except (Skip, OverflowError, ZeroDivisionError):
             continue
         try:
             b = ev(q, env)
+        except (OverflowError, ZeroDivisionError):
+            continue
         except Unsupported as ex:
             return "under %s the original has value %s, the parsed one contains a %s" % (_fmt(env), a, ex)
         except Skip:
@@ -676,7 +672,7 @@ def bounded(payload):
     seed = payload.get("seed", 0)
     tier = payload.get("tier", "quick")
     rng = random.Random(seed)
-    n_random = budget.get("random_expressions", 1500 if tier == "quick" else 30000)
+    n_random = budget.get("random_expressions", 1500 if tier == "quick" else 12000)
     arith_atoms = budget.get("arith_atoms", 2 if tier == "quick" else 3)
     max_fail = budget.get("max_failures", 20)
 
@@ -826,7 +822,7 @@ def bounded(payload):
                     "length <= 3 over {a,1,_,<,>,:}; then seeded random typed expressions of depth <= 5.  A failing "
                     "input is reduced to its smallest failing subexpressions.  Non-trivial = has an operator; "
                     "distinct = distinct trees" % (arith_atoms, "4th in the quick tier" if tier == "quick" else "one"),
-            "bound": "depth <= 3 exhaustively (arithmetic), depth <= 5 random; 5 valuations per expression "
+            "bound": "depth <= 3 exhaustively (arithmetic), depth <= 5 random; 6 valuations per expression "
                      "(small integers and rationals, hash tables for functions and subscripted names)",
             "samples": samples[:4], "failures": failures[:max_fail], "known_hits": known_hits,
             "parts": parts, "exhaustive": False}
